@@ -73,11 +73,24 @@ package v1
 
 // ---- initCertificate (C03, C04, C05, C19): the parsed configuration carries exactly what the file says
 //@ func parseExtensions returns (res, err)
-//@   props C06
-//@   unverified iterates the fields of AnyExtension by reflection with a non-constant bound (bounded stand-in TestVerifBoundedParseExtensions)
+//@   props C06 C08 C20
 //@   bounded TestVerifBoundedParseExtensions
-//@   abstracts err == nil ==> len(res) == len(e)
-//@   abstracts err != nil ==> res == nil
+// every entry of the YAML list holds exactly one extension (one non-nil pointer among the eleven kinds); the result has
+// the same length and order, and its k-th element is the interface value holding a copy of the structure the k-th entry
+// points to. The inner loop walks the fields of AnyExtension by reflection: it is executed field by field (unroll), the
+// reflect calls evaluated for the statically known type.
+//@   let ONE = ((if e[k].SubjectKeyIdentifier != nil then 1 else 0) + (if e[k].KeyUsage != nil then 1 else 0) + (if e[k].SubjectAltName != nil then 1 else 0) + (if e[k].BasicConstraints != nil then 1 else 0) + (if e[k].CertPolicies != nil then 1 else 0) + (if e[k].AuthInfoAccess != nil then 1 else 0) + (if e[k].AuthKeyId != nil then 1 else 0) + (if e[k].ExtKeyUsage != nil then 1 else 0) + (if e[k].AdmissionExtension != nil then 1 else 0) + (if e[k].OcspNoCheckExtension != nil then 1 else 0) + (if e[k].CustomExtension != nil then 1 else 0)) == 1
+//@   let SAMERES = (e[k].SubjectKeyIdentifier != nil ==> typeis(res[k], "gopki/generator/config/v1.SubjectKeyIdentifier") && payload(res[k], "gopki/generator/config/v1.SubjectKeyIdentifier") == deref(e[k].SubjectKeyIdentifier)) && (e[k].KeyUsage != nil ==> typeis(res[k], "gopki/generator/config/v1.KeyUsage") && payload(res[k], "gopki/generator/config/v1.KeyUsage") == deref(e[k].KeyUsage)) && (e[k].SubjectAltName != nil ==> typeis(res[k], "gopki/generator/config/v1.SubjectAltName") && payload(res[k], "gopki/generator/config/v1.SubjectAltName") == deref(e[k].SubjectAltName)) && (e[k].BasicConstraints != nil ==> typeis(res[k], "gopki/generator/config/v1.BasicConstraints") && payload(res[k], "gopki/generator/config/v1.BasicConstraints") == deref(e[k].BasicConstraints)) && (e[k].CertPolicies != nil ==> typeis(res[k], "gopki/generator/config/v1.CertPolicies") && payload(res[k], "gopki/generator/config/v1.CertPolicies") == deref(e[k].CertPolicies)) && (e[k].AuthInfoAccess != nil ==> typeis(res[k], "gopki/generator/config/v1.AuthInfoAccess") && payload(res[k], "gopki/generator/config/v1.AuthInfoAccess") == deref(e[k].AuthInfoAccess)) && (e[k].AuthKeyId != nil ==> typeis(res[k], "gopki/generator/config/v1.AuthKeyId") && payload(res[k], "gopki/generator/config/v1.AuthKeyId") == deref(e[k].AuthKeyId)) && (e[k].ExtKeyUsage != nil ==> typeis(res[k], "gopki/generator/config/v1.ExtKeyUsage") && payload(res[k], "gopki/generator/config/v1.ExtKeyUsage") == deref(e[k].ExtKeyUsage)) && (e[k].AdmissionExtension != nil ==> typeis(res[k], "gopki/generator/config/v1.AdmissionExtension") && payload(res[k], "gopki/generator/config/v1.AdmissionExtension") == deref(e[k].AdmissionExtension)) && (e[k].OcspNoCheckExtension != nil ==> typeis(res[k], "gopki/generator/config/v1.OcspNoCheckExtension") && payload(res[k], "gopki/generator/config/v1.OcspNoCheckExtension") == deref(e[k].OcspNoCheckExtension)) && (e[k].CustomExtension != nil ==> typeis(res[k], "gopki/generator/config/v1.CustomExtension") && payload(res[k], "gopki/generator/config/v1.CustomExtension") == deref(e[k].CustomExtension))
+//@   let SAMEOUT = (e[k].SubjectKeyIdentifier != nil ==> typeis(out[k], "gopki/generator/config/v1.SubjectKeyIdentifier") && payload(out[k], "gopki/generator/config/v1.SubjectKeyIdentifier") == deref(e[k].SubjectKeyIdentifier)) && (e[k].KeyUsage != nil ==> typeis(out[k], "gopki/generator/config/v1.KeyUsage") && payload(out[k], "gopki/generator/config/v1.KeyUsage") == deref(e[k].KeyUsage)) && (e[k].SubjectAltName != nil ==> typeis(out[k], "gopki/generator/config/v1.SubjectAltName") && payload(out[k], "gopki/generator/config/v1.SubjectAltName") == deref(e[k].SubjectAltName)) && (e[k].BasicConstraints != nil ==> typeis(out[k], "gopki/generator/config/v1.BasicConstraints") && payload(out[k], "gopki/generator/config/v1.BasicConstraints") == deref(e[k].BasicConstraints)) && (e[k].CertPolicies != nil ==> typeis(out[k], "gopki/generator/config/v1.CertPolicies") && payload(out[k], "gopki/generator/config/v1.CertPolicies") == deref(e[k].CertPolicies)) && (e[k].AuthInfoAccess != nil ==> typeis(out[k], "gopki/generator/config/v1.AuthInfoAccess") && payload(out[k], "gopki/generator/config/v1.AuthInfoAccess") == deref(e[k].AuthInfoAccess)) && (e[k].AuthKeyId != nil ==> typeis(out[k], "gopki/generator/config/v1.AuthKeyId") && payload(out[k], "gopki/generator/config/v1.AuthKeyId") == deref(e[k].AuthKeyId)) && (e[k].ExtKeyUsage != nil ==> typeis(out[k], "gopki/generator/config/v1.ExtKeyUsage") && payload(out[k], "gopki/generator/config/v1.ExtKeyUsage") == deref(e[k].ExtKeyUsage)) && (e[k].AdmissionExtension != nil ==> typeis(out[k], "gopki/generator/config/v1.AdmissionExtension") && payload(out[k], "gopki/generator/config/v1.AdmissionExtension") == deref(e[k].AdmissionExtension)) && (e[k].OcspNoCheckExtension != nil ==> typeis(out[k], "gopki/generator/config/v1.OcspNoCheckExtension") && payload(out[k], "gopki/generator/config/v1.OcspNoCheckExtension") == deref(e[k].OcspNoCheckExtension)) && (e[k].CustomExtension != nil ==> typeis(out[k], "gopki/generator/config/v1.CustomExtension") && payload(out[k], "gopki/generator/config/v1.CustomExtension") == deref(e[k].CustomExtension))
+//@   ensures err != nil ==> res == nil
+//@   ensures @C06,C08 err == nil ==> len(res) == len(e)
+//@   ensures @C06,C08,C20 (err == nil) <==> (forall k in [0, len(e)) :: ONE)
+//@   ensures @C06,C08 err == nil ==> (forall k in [0, len(e)) :: SAMERES)
+//@   loop 1
+//@     invariant 0 <= idx && idx <= len(e) && len(out) == idx && fresh(out)
+//@     invariant @C06,C08,C20 forall k in [0, idx) :: ONE
+//@     invariant @C06,C08 forall k in [0, idx) :: SAMEOUT
+//@   loop 2 unroll
 
 //@ func initCertificate returns (res, err)
 //@   props C03 C04 C05 C19
@@ -91,8 +104,8 @@ package v1
 //@   ensures err == nil ==> res != nil && fresh(res)
 //@   ensures err != nil ==> res == nil
 //@   ensures @C03 err == nil ==> res.SerialNumber == c.SerialNumber && res.Alias == c.Alias && res.Issuer == c.Issuer && res.Profile == c.Profile
-//@   ensures @C03 err == nil ==> (if c.IssuerUniqueId != "" then rawOk(c.IssuerUniqueId) && bytes(res.IssuerUniqueId.Bytes) == rawBytes(c.IssuerUniqueId) && res.IssuerUniqueId.BitLength == 8 * len(res.IssuerUniqueId.Bytes) else res.IssuerUniqueId.Bytes == nil && res.IssuerUniqueId.BitLength == 0)
-//@   ensures @C03 err == nil ==> (if c.SubjectUniqueId != "" then rawOk(c.SubjectUniqueId) && bytes(res.SubjectUniqueId.Bytes) == rawBytes(c.SubjectUniqueId) && res.SubjectUniqueId.BitLength == 8 * len(res.SubjectUniqueId.Bytes) else res.SubjectUniqueId.Bytes == nil && res.SubjectUniqueId.BitLength == 0)
+//@   ensures @C03,C06 err == nil ==> (if c.IssuerUniqueId != "" then rawOk(c.IssuerUniqueId) && bytes(res.IssuerUniqueId.Bytes) == rawBytes(c.IssuerUniqueId) && res.IssuerUniqueId.BitLength == 8 * len(res.IssuerUniqueId.Bytes) else res.IssuerUniqueId.Bytes == nil && res.IssuerUniqueId.BitLength == 0)
+//@   ensures @C03,C06 err == nil ==> (if c.SubjectUniqueId != "" then rawOk(c.SubjectUniqueId) && bytes(res.SubjectUniqueId.Bytes) == rawBytes(c.SubjectUniqueId) && res.SubjectUniqueId.BitLength == 8 * len(res.SubjectUniqueId.Bytes) else res.SubjectUniqueId.Bytes == nil && res.SubjectUniqueId.BitLength == 0)
 //@   ensures @C03 err == nil ==> called("gopki/generator/config.ParseRDNSequence", 1) && callres("gopki/generator/config.ParseRDNSequence", 1, 1) == nil && res.Subject == callres("gopki/generator/config.ParseRDNSequence", 1, 0)
 //@   ensures @C04 err == nil ==> called("(gopki/generator/config/v1.CertValidity).toTimeStruct", 1) && callres("(gopki/generator/config/v1.CertValidity).toTimeStruct", 1, 1) == nil && res.Validity == callres("(gopki/generator/config/v1.CertValidity).toTimeStruct", 1, 0)
 //@   ensures @C05 err == nil ==> (if KA == "" then res.KeyAlgorithm == 5 else specKeyAlg(KA) >= 0 && res.KeyAlgorithm == specKeyAlg(KA))
@@ -109,9 +122,9 @@ package v1
 //@ filelet CONST = "gopki/generator/config.ConstantBuilder"
 
 //@ func (KeyUsage).Oid returns (r)
-//@   props C06
+//@   props C06 C08
 //@   uses ext.smt2
-//@   ensures @C06 r != nil && oidv(r) == specExtOid(1)
+//@   ensures @C06,C08 r != nil && oidv(r) == specExtOid(1)
 
 //@ func (KeyUsage).Builder returns (b, err)
 //@   props C06 C07 C08
@@ -130,9 +143,9 @@ package v1
 //@     invariant @C07 kuOk(CT, idx) == kuOk(CT, 0)
 
 //@ func (SubjectKeyIdentifier).Oid returns (r)
-//@   props C06
+//@   props C06 C08
 //@   uses ext.smt2
-//@   ensures @C06 r != nil && oidv(r) == specExtOid(0)
+//@   ensures @C06,C08 r != nil && oidv(r) == specExtOid(0)
 
 //@ func (SubjectKeyIdentifier).Builder returns (b, err)
 //@   props C06 C07 C08
@@ -155,9 +168,9 @@ package v1
 //@   ensures @C01,C07 err == nil ==> bytes(ext.Value) == der(deepBytes(digest(3, bytes(old(ctx.TbsCertificate.PublicKey.PublicKey.Bytes)))))
 
 //@ func (SubjectAltName).Oid returns (r)
-//@   props C06
+//@   props C06 C08
 //@   uses ext.smt2
-//@   ensures @C06 r != nil && oidv(r) == specExtOid(5)
+//@   ensures @C06,C08 r != nil && oidv(r) == specExtOid(5)
 
 //@ func (SubjectAltName).Builder returns (b, err)
 //@   bounded TestVerifBoundedV1Names
@@ -182,9 +195,9 @@ package v1
 //@     invariant @C07 forall j in [0, idx) :: octetOk(component.Name, j) && ipAddr[j] == octet(component.Name, j)
 
 //@ func (BasicConstraints).Oid returns (r)
-//@   props C06
+//@   props C06 C08
 //@   uses ext.smt2
-//@   ensures @C06 r != nil && oidv(r) == specExtOid(4)
+//@   ensures @C06,C08 r != nil && oidv(r) == specExtOid(4)
 
 //@ func (BasicConstraints).Builder returns (res, err)
 //@   props C06 C07 C08
@@ -198,9 +211,9 @@ package v1
 //@   ensures @C06,C07 typeis(res, "gopki/generator/config.ConstantBuilder") && b.Raw == "" && b.Content != nil ==> oidv(unboxed(res, "gopki/generator/config.ConstantBuilder").Extension.Id) == specExtOid(4) && unboxed(res, "gopki/generator/config.ConstantBuilder").Extension.Critical == b.Critical && bytes(unboxed(res, "gopki/generator/config.ConstantBuilder").Extension.Value) == bcDer(old(b.Content.Ca), old(b.Content.PathLen))
 
 //@ func (CertPolicies).Oid returns (r)
-//@   props C06
+//@   props C06 C08
 //@   uses ext.smt2
-//@   ensures @C06 r != nil && oidv(r) == specExtOid(6)
+//@   ensures @C06,C08 r != nil && oidv(r) == specExtOid(6)
 
 //@ func (CertPolicies).Builder returns (b, err)
 //@   props C06 C07 C08
@@ -232,9 +245,9 @@ package v1
 //@     invariant @C07 forall j in [idx, len(policyObj.Qualifiers)) :: QDI.Cps == "" && QDI.UserNotice.ExplicitText == "" && QDI.UserNotice.NoticeRef.Organization == "" && len(QDI.UserNotice.NoticeRef.NoticeNumbers) == 0
 
 //@ func (AuthInfoAccess).Oid returns (r)
-//@   props C06
+//@   props C06 C08
 //@   uses ext.smt2
-//@   ensures @C06 r != nil && oidv(r) == specExtOid(9)
+//@   ensures @C06,C08 r != nil && oidv(r) == specExtOid(9)
 
 //@ func (AuthInfoAccess).Builder returns (b, err)
 //@   props C06 C07 C08
@@ -253,9 +266,9 @@ package v1
 //@     invariant @C07 forall k in [0, idx) :: CT[k].Ocsp != "" && accessInfoList[k].AccessMethod == 0 && accessInfoList[k].AccessLocation != nil && gnDer(accessInfoList[k].AccessLocation) == tlv(2, 6, false, strBytes(CT[k].Ocsp))
 
 //@ func (AuthKeyId).Oid returns (r)
-//@   props C06
+//@   props C06 C08
 //@   uses ext.smt2
-//@   ensures @C06 r != nil && oidv(r) == specExtOid(3)
+//@   ensures @C06,C08 r != nil && oidv(r) == specExtOid(3)
 
 //@ func (AuthKeyId).Builder returns (b, err)
 //@   props C06 C07 C08
@@ -280,9 +293,9 @@ package v1
 //@   ensures @C01,C07 err == nil ==> bytes(ext.Value) == der(akiDeep(digest(3, bytes(old(ctx.Issuer.PublicKeyRaw)))))
 
 //@ func (ExtKeyUsage).Oid returns (r)
-//@   props C06
+//@   props C06 C08
 //@   uses ext.smt2
-//@   ensures @C06 r != nil && oidv(r) == specExtOid(2)
+//@   ensures @C06,C08 r != nil && oidv(r) == specExtOid(2)
 
 //@ func (ExtKeyUsage).Builder returns (b, err)
 //@   props C06 C07 C08
@@ -309,9 +322,9 @@ package v1
 //@   ensures @C07 err == nil ==> oidv(oid) == ekuOid(s)
 
 //@ func (AdmissionExtension).Oid returns (r)
-//@   props C06
+//@   props C06 C08
 //@   uses ext.smt2
-//@   ensures @C06 r != nil && oidv(r) == specExtOid(11)
+//@   ensures @C06,C08 r != nil && oidv(r) == specExtOid(11)
 
 //@ func (AdmissionExtension).Builder returns (b, err)
 //@   props C06 C07 C08
@@ -324,9 +337,9 @@ package v1
 //@   ensures @C06 a.Raw == "" && a.Content != nil && err == nil ==> typeis(b, "gopki/generator/config.ConstantBuilder") && oidv(unboxed(b, "gopki/generator/config.ConstantBuilder").Extension.Id) == specExtOid(11) && unboxed(b, "gopki/generator/config.ConstantBuilder").Extension.Critical == a.Critical
 
 //@ func (OcspNoCheckExtension).Oid returns (r)
-//@   props C06
+//@   props C06 C08
 //@   uses ext.smt2
-//@   ensures @C06 r != nil && oidv(r) == specExtOid(12)
+//@   ensures @C06,C08 r != nil && oidv(r) == specExtOid(12)
 
 //@ func (OcspNoCheckExtension).Builder returns (b, err)
 //@   props C06 C07 C08
